@@ -43,7 +43,7 @@ func main() {
 			for i := 0; i < nChildren; i++ {
 				bs = append(bs, vh.Batch{Name: fmt.Sprintf("exh-%d", i), TimeoutS: 1500})
 			}
-			bs = append(bs, vh.Batch{Name: "rand", TimeoutS: 900})
+			bs = append(bs, vh.Batch{Name: "rand", TimeoutS: 900}, vh.Batch{Name: "bulk", TimeoutS: 900})
 			nc, nr := 2, 2
 			if tier == "thorough" {
 				nc, nr = 8, 20
@@ -112,6 +112,8 @@ func (m *model) find(id string) *mEntry {
 }
 
 type seqRunner struct {
+	every   int // compare Export with the model after every n-th operation (0/1 = every operation)
+	nops    int
 	r       *vh.Run
 	l       *har.Logger
 	m       model
@@ -126,9 +128,13 @@ func newReq(id string, mark int) *http.Request {
 	return req
 }
 
+// statuses of recorded responses: a response recorded for an id completes the
+// entry whatever its status (101 Switching Protocols ends an exchange too).
+var statuses = []int{200, 200, 204, 206, 301, 304, 404, 500, 503, 101, 100, 103, 199}
+
 func newRes(req *http.Request, mark int) *http.Response {
 	return &http.Response{
-		StatusCode: 200, Proto: "HTTP/1.1", ProtoMajor: 1, ProtoMinor: 1,
+		StatusCode: statuses[mark%len(statuses)], Proto: "HTTP/1.1", ProtoMajor: 1, ProtoMinor: 1,
 		Header:  http.Header{"X-Mark": []string{strconv.Itoa(mark)}},
 		Body:    http.NoBody,
 		Request: req,
@@ -336,7 +342,12 @@ func (s *seqRunner) apply(o op) (clause, what string) {
 		}
 		s.m.list = nil
 	}
-	// Export after every operation must equal the model.
+	// Export after every operation must equal the model (in the bulk family:
+	// after every n-th operation and after every ExportAndReset/Reset).
+	s.nops++
+	if s.every > 1 && s.nops%s.every != 0 && o.K != opEAR && o.K != opReset {
+		return "", ""
+	}
 	h, err := exportVia(s.l, s.viaHTTP)
 	if err != nil {
 		return "export", err.Error()
@@ -352,11 +363,15 @@ func (s *seqRunner) apply(o op) (clause, what string) {
 }
 
 func runSeq(r *vh.Run, ops []op, viaHTTP, body bool) (string, string, int) {
+	return runSeqEvery(r, ops, viaHTTP, body, 1)
+}
+
+func runSeqEvery(r *vh.Run, ops []op, viaHTTP, body bool, every int) (string, string, int) {
 	l := har.NewLogger()
 	if !body {
 		l.SetOption(har.BodyLogging(false), har.PostDataLogging(false))
 	}
-	s := &seqRunner{r: r, l: l, viaHTTP: viaHTTP, exported: map[string]bool{}}
+	s := &seqRunner{r: r, l: l, viaHTTP: viaHTTP, exported: map[string]bool{}, every: every}
 	for i, o := range ops {
 		if c, w := s.apply(o); c != "" {
 			return c, w, i
@@ -365,6 +380,10 @@ func runSeq(r *vh.Run, ops []op, viaHTTP, body bool) (string, string, int) {
 	// final drain: complete nothing more; every completed entry must come out exactly once
 	if c, w := s.apply(op{K: opEAR}); c != "" {
 		return c, "final drain: " + w, len(ops)
+	}
+	s.every = 1
+	if c, w := s.apply(op{K: opExport}); c != "" {
+		return c, "after the final drain: " + w, len(ops)
 	}
 	return "", "", 0
 }
@@ -475,6 +494,90 @@ func runRandom(r *vh.Run) {
 			r.Sample(map[string]interface{}{"random_sequence": seqString(ops[:20]) + " ...", "len": L})
 		}
 	}
+}
+
+// bulkCase is a long history over a large id space: logs of hundreds to
+// thousands of entries, most completed, some pending at PRNG positions
+// (including the newest), drained by ExportAndReset and then continued:
+// pending ids re-requested (must be rejected), completed, exported again.
+type bulkCase struct {
+	Kind string `json:"kind"` // "bulk"
+	Idx  int    `json:"idx"`
+}
+
+func genBulk(r *vh.Run, idx int) []op {
+	rng := r.Rng("c17-bulk", idx)
+	sizes := []int{300, 1023, 1024, 1025, 1500, 2100, 3000}
+	n := sizes[rng.Intn(len(sizes))]
+	var ops []op
+	next := 0
+	var pending []int
+	rounds := 2 + rng.Intn(3)
+	for round := 0; round < rounds; round++ {
+		var fresh []int
+		for i := 0; i < n; i++ {
+			ops = append(ops, op{opReq, next})
+			fresh = append(fresh, next)
+			next++
+		}
+		// leave a few pending: PRNG positions, often the newest and/or the oldest
+		keep := map[int]bool{}
+		for k := rng.Intn(4); k > 0; k-- {
+			keep[fresh[rng.Intn(len(fresh))]] = true
+		}
+		if rng.Intn(2) == 0 {
+			keep[fresh[len(fresh)-1]] = true
+		}
+		if rng.Intn(3) == 0 {
+			keep[fresh[0]] = true
+		}
+		// complete earlier pending ones too, in PRNG order
+		for _, id := range pending {
+			if rng.Intn(2) == 0 {
+				ops = append(ops, op{opRes, id})
+			}
+		}
+		for _, id := range rng.Perm(len(fresh)) {
+			if !keep[fresh[id]] {
+				ops = append(ops, op{opRes, fresh[id]})
+			}
+		}
+		pending = pending[:0]
+		for id := range keep {
+			pending = append(pending, id)
+		}
+		ops = append(ops, op{K: opEAR})
+		// after the drain: duplicates of pending ids must be rejected, unknown responses ignored
+		for _, id := range pending {
+			ops = append(ops, op{opReq, id})
+		}
+		ops = append(ops, op{opRes, next + 7}) // unknown id
+		if rng.Intn(3) == 0 {
+			for _, id := range pending {
+				ops = append(ops, op{opRes, id})
+			}
+			ops = append(ops, op{K: opEAR})
+			pending = pending[:0]
+		}
+		if rng.Intn(6) == 0 {
+			ops = append(ops, op{K: opReset})
+			pending = pending[:0]
+		}
+		n = sizes[rng.Intn(len(sizes))] / 2
+	}
+	return ops
+}
+
+func runBulk(r *vh.Run, c bulkCase) {
+	ops := genBulk(r, c.Idx)
+	clause, what, at := runSeqEvery(r, ops, false, false, 257)
+	r.Eval(1)
+	r.Count("bulk_operations", int64(len(ops)))
+	if clause != "" {
+		r.ViolationCase(c, "C17:"+clause+":bulk", what+fmt.Sprintf(" [op %d of %d in bulk history %d]", at, len(ops), c.Idx), nil)
+		return
+	}
+	r.Class(fmt.Sprintf("bulk:ops=%s", bucket(len(ops)/100)))
 }
 
 // ---------------------------------------------------------------------------
@@ -826,6 +929,122 @@ func runConcurrent(r *vh.Run, c concCase, race bool) {
 	}
 }
 
+// conserveCase: high-volume conservation run without resets. W writers record
+// request+response for unique ids in a tight loop while D drainers call
+// ExportAndReset concurrently; after a final drain every exchange must have
+// been returned by exactly one ExportAndReset (none lost, none twice), each
+// returned entry complete. Cheap (no linearizability search), so the volume
+// is high enough to hit narrow windows inside ExportAndReset.
+type conserveCase struct {
+	Kind   string `json:"kind"` // "conserve"
+	Idx    int    `json:"idx"`
+	Stream string `json:"stream"`
+}
+
+func runConserve(r *vh.Run, c conserveCase) {
+	rng := r.Rng(c.Stream, c.Idx)
+	W := 2 + rng.Intn(7)
+	D := 1 + rng.Intn(2)
+	per := 600 + rng.Intn(1400)
+	viaHTTP := rng.Intn(4) == 0
+	l := har.NewLogger()
+	l.SetOption(har.BodyLogging(false), har.PostDataLogging(false))
+	var mu sync.Mutex
+	got := map[string]int{}
+	var problems []string
+	note := func(h *har.HAR, err error) {
+		if err != nil {
+			mu.Lock()
+			problems = append(problems, err.Error())
+			mu.Unlock()
+			return
+		}
+		obs, err := observe(h)
+		mu.Lock()
+		defer mu.Unlock()
+		if err != nil {
+			problems = append(problems, err.Error())
+			return
+		}
+		for _, o := range obs {
+			got[o.ID]++
+			if !o.HasRes && len(problems) < 5 {
+				problems = append(problems, "pending entry "+o.ID+" returned by ExportAndReset")
+			}
+		}
+	}
+	var wg, dg sync.WaitGroup
+	stop := make(chan struct{})
+	for d := 0; d < D; d++ {
+		dg.Add(1)
+		go func() {
+			defer dg.Done()
+			for {
+				select {
+				case <-stop:
+					return
+				default:
+				}
+				note(earVia(l, viaHTTP))
+			}
+		}()
+	}
+	for w := 0; w < W; w++ {
+		wg.Add(1)
+		go func(w int) {
+			defer wg.Done()
+			for k := 0; k < per; k++ {
+				id := fmt.Sprintf("w%d_%d", w, k)
+				if err := l.RecordRequest(id, newReq(id, k+1)); err != nil {
+					mu.Lock()
+					problems = append(problems, "RecordRequest("+id+"): "+err.Error())
+					mu.Unlock()
+					continue
+				}
+				l.RecordResponse(id, newRes(nil, k+1))
+			}
+		}(w)
+	}
+	wg.Wait()
+	close(stop)
+	dg.Wait()
+	note(earVia(l, false))
+	left, _ := observe(l.Export())
+	r.Eval(1)
+	r.Count("conserve_exchanges", int64(W*per))
+	lost, dup := 0, 0
+	firstLost := ""
+	for w := 0; w < W; w++ {
+		for k := 0; k < per; k++ {
+			id := fmt.Sprintf("w%d_%d", w, k)
+			switch n := got[id]; {
+			case n == 0:
+				lost++
+				if firstLost == "" {
+					firstLost = id
+				}
+			case n > 1:
+				dup++
+			}
+		}
+	}
+	if lost > 0 {
+		r.ViolationCase(c, "C17:exactly-once:conserve-lost", fmt.Sprintf("%d of %d completed exchanges were never returned by any ExportAndReset (first: %s); %d entries left in the log", lost, W*per, firstLost, len(left)), nil)
+	}
+	if dup > 0 {
+		r.ViolationCase(c, "C17:exactly-once:conserve-duplicated", fmt.Sprintf("%d of %d exchanges were returned by more than one ExportAndReset", dup, W*per), nil)
+	}
+	if len(left) > 0 && lost == 0 {
+		r.ViolationCase(c, "C17:export:conserve-leftover", fmt.Sprintf("%d entries still listed after the final drain although every exchange was completed", len(left)), nil)
+	}
+	for _, p := range problems {
+		r.ViolationCase(c, "C17:export-and-reset:conserve", p, nil)
+	}
+	if lost == 0 && dup == 0 && len(problems) == 0 {
+		r.Class(fmt.Sprintf("conserve:W=%d:D=%d:http=%v", W, D, viaHTTP))
+	}
+}
+
 func bucket(n int) string {
 	switch {
 	case n < 5:
@@ -845,6 +1064,12 @@ func run(r *vh.Run, batch string) {
 		runExhaustive(r, child)
 	case batch == "rand":
 		runRandom(r)
+	case batch == "bulk":
+		for i := 0; i < r.Pick(8, 80); i++ {
+			c := bulkCase{Kind: "bulk", Idx: i}
+			r.Case(c)
+			runBulk(r, c)
+		}
 	case strings.HasPrefix(batch, "conc-"), strings.HasPrefix(batch, "race-"):
 		race := strings.HasPrefix(batch, "race-")
 		n := r.Pick(30, 250)
@@ -855,6 +1080,15 @@ func run(r *vh.Run, batch string) {
 			c := concCase{Kind: "conc", Idx: i, Name: "c17-" + batch}
 			r.Case(c)
 			runConcurrent(r, c, race)
+		}
+		nc := r.Pick(6, 20)
+		if race {
+			nc = 2
+		}
+		for i := 0; i < nc; i++ {
+			c := conserveCase{Kind: "conserve", Idx: i, Stream: "c17-conserve-" + batch}
+			r.Case(c)
+			runConserve(r, c)
 		}
 	}
 }
@@ -869,6 +1103,16 @@ func replay(r *vh.Run, raw json.RawMessage) {
 		var c caseSeq
 		json.Unmarshal(raw, &c)
 		checkSeq(r, c)
+	case "conserve":
+		var c conserveCase
+		json.Unmarshal(raw, &c)
+		for i := 0; i < 5; i++ {
+			runConserve(r, c)
+		}
+	case "bulk":
+		var c bulkCase
+		json.Unmarshal(raw, &c)
+		runBulk(r, c)
 	case "conc":
 		var c concCase
 		json.Unmarshal(raw, &c)
